@@ -87,7 +87,11 @@ fn separated_roots(rng: &mut Rng, n: usize, real: bool) -> Vec<Cmplx> {
 
 pub fn gen_case(rng: &mut Rng, n: usize, real: bool, class: u64) -> Case {
     let z0 = Cmplx::new(0.0, 0.0);
-    let rc = |rng: &mut Rng, s: f64| if real { Cmplx::new(rng.sym() * s, 0.0) } else { Cmplx::new(rng.sym() * s, rng.sym() * s) };
+    // complex coefficients: general, purely real, purely imaginary, or exact units (+-1, +-i) — axis-aligned values
+    // exercise the signed-zero / lexicographic-ordering branches of the closed-form solvers
+    let rc = |rng: &mut Rng, s: f64| if real { Cmplx::new(rng.sym() * s, 0.0) } else {
+        match rng.below(8) { 0 => Cmplx::new(rng.sym() * s, 0.0), 1 => Cmplx::new(0.0, rng.sym() * s), 2 => *rng.pick(&[Cmplx::new(1.0, 0.0), Cmplx::new(-1.0, 0.0), Cmplx::new(0.0, 1.0), Cmplx::new(0.0, -1.0)]) * s, _ => Cmplx::new(rng.sym() * s, rng.sym() * s) }
+    };
     let nzlead = |rng: &mut Rng| { let mut l = rc(rng, 1.0); if fl::cabs(l) < 0.1 { l = Cmplx::new(1.0, 0.0); } l };
     match class {
         0 => { let mut c: Vec<Cmplx> = (0..=n).map(|_| rc(rng, 1.0)).collect(); c[n] = nzlead(rng); Case { coeffs: c, real, class: "random", known_roots: None } }
@@ -107,7 +111,9 @@ pub fn gen_case(rng: &mut Rng, n: usize, real: bool, class: u64) -> Case {
             let mut r = vec![]; while r.len() + 1 < n { let y = rng.int(1, 6) as f64 * 0.5; let x = if rng.bool() { 0.0 } else { rng.int(-3, 3) as f64 * 0.5 }; r.push(Cmplx::new(x, y)); r.push(Cmplx::new(x, -y)); }
             if r.len() < n { r.push(Cmplx::new(rng.int(-3, 3) as f64, 0.0)); }
             Case { coeffs: expand(&r, Cmplx::new(1.0, 0.0)), real, class: "conjugate-pairs", known_roots: None } }
-        8 => { let mut c = vec![z0; n + 1]; c[n] = Cmplx::new(1.0, 0.0); c[0] = if real { Cmplx::new(rng.logmag(1e-3, 1e3), 0.0) } else { Cmplx::new(rng.sym(), rng.sym()) }; Case { coeffs: c, real, class: "x^n+c", known_roots: None } }
+        8 => { let mut c = vec![z0; n + 1]; c[n] = Cmplx::new(1.0, 0.0); c[0] = if real { Cmplx::new(rng.logmag(1e-3, 1e3), 0.0) } else { match rng.below(4) { 0 => Cmplx::new(0.0, rng.logmag(1e-3, 1e3)), 1 => Cmplx::new(rng.logmag(1e-3, 1e3), 0.0), 2 => *rng.pick(&[Cmplx::new(0.0, 1.0), Cmplx::new(0.0, -1.0), Cmplx::new(-1.0, 0.0), Cmplx::new(0.0, -16.0)]), _ => Cmplx::new(rng.sym(), rng.sym()) } };
+            if rng.chance(0.3) { let l = *rng.pick(&[2.0, -1.0, 0.5, 3.0]); c[n] = if real || rng.bool() { Cmplx::new(l, 0.0) } else { Cmplx::new(0.0, l) }; }
+            Case { coeffs: c, real, class: "x^n+c", known_roots: None } }
         _ => { let mut c = vec![z0; n + 1]; c[n] = Cmplx::new(1.0, 0.0); c[0] = Cmplx::new(rng.logmag(0.1, 10.0), 0.0); if n >= 2 { c[1] = Cmplx::new(rng.logmag(1e-8, 1e-2), 0.0); } Case { coeffs: c, real, class: "x^n+eps*x+c", known_roots: None } }
     }
 }
